@@ -22,7 +22,7 @@ class Result:
         self.by_depth = collections.Counter()
 
 
-def bfs(build, enabled, step, canon, max_depth, max_states=None, on_transition=None, roots=((),), probe=None):
+def bfs(build, enabled, step, canon, max_depth, max_states=None, on_transition=None, roots=((),), probe=None, dispose=None):
     res = Result()
     seen = set()
     frontier = collections.deque()
@@ -36,6 +36,8 @@ def bfs(build, enabled, step, canon, max_depth, max_states=None, on_transition=N
             if probe is not None:
                 for v in probe(sysm, tuple(r)):
                     res.violations.append((tuple(r), ("probe",), v))
+        if dispose is not None:
+            dispose(sysm)
     while frontier:
         hist = frontier.popleft()
         depth = len(hist)
@@ -44,6 +46,8 @@ def bfs(build, enabled, step, canon, max_depth, max_states=None, on_transition=N
             continue
         base = build(hist)
         events = list(enabled(base))
+        if dispose is not None:
+            dispose(base)
         for ev in events:
             sysm = build(hist)
             violations = step(sysm, ev)
@@ -65,5 +69,7 @@ def bfs(build, enabled, step, canon, max_depth, max_states=None, on_transition=N
                     # runs on this throw-away copy of the system
                     for v in probe(sysm, hist + (ev,)):
                         res.violations.append((hist + (ev,), ("probe",), v))
+            if dispose is not None:
+                dispose(sysm)
     res.states = len(seen)
     return res
